@@ -38,8 +38,15 @@ def worker(args):
     wid, sessions = args
     binary = vf.build_harness("wire")
     cases, metas = [], []
-    for (managers_name, managers, bare, inj) in sessions:
-        steps = [wire.client(managers=managers, bare=bare)] + wire.login_sasl(sm=True, roster=not bare)
+    for (managers_name, managers, bare, inj, *mode) in sessions:
+        resume = "resume" in mode
+        steps = [wire.client(managers=managers, bare=bare)] + wire.login_sasl(sm=True, roster=not bare, resumable=resume)
+        if resume:
+            # the server counts the replies it receives but never says so before the connection is lost: after the resumption (with a
+            # handled-count that covers them) no reply may come a second time
+            for s_ in steps:
+                if s_.get("smOn"):
+                    s_["manualAck"] = True
         steps.append(dict(op="wait_signal", name="connected"))
         if not bare and len(inj) > 1:
             # one outstanding request whose id some injected requests will duplicate
@@ -57,8 +64,11 @@ def worker(args):
         steps.append(dict(op="fence", sm=True, optional=True))
         steps.append(dict(op="settle", quiet=30))
         steps.append(dict(op="fence", sm=True, optional=True))
+        if resume:
+            steps += [dict(op="cut"), dict(op="wait_signal", name="disconnected")] + wire.relogin(resume="accept", roster=False) + [dict(op="wait_signal", name="connected", optional=True, timeout=1500)]
+            steps += [dict(op="fence", sm=True, optional=True), dict(op="settle", quiet=30), dict(op="fence", sm=True, optional=True)]
         cases.append(dict(steps=steps, timeout=8000 if len(inj) > 1 else 1500, stopOnStall=len(inj) > 1))
-        metas.append((managers_name, inj))
+        metas.append((managers_name + (" resumed" if resume else ""), inj))
     outs, crashes = wire.run_cases(binary, cases)
     viol, stats = [], collections.Counter()
     for rq, info in crashes:
@@ -68,6 +78,12 @@ def worker(args):
         if not out:
             continue
         j = out["journal"]
+        if mname.endswith(" resumed"):
+            if any(e["ev"] == "srv_tx" and "<resumed " in e.get("xml", "") for e in j):
+                stats["resumed_sessions"] += 1
+            else:
+                inconc.append("resumption was not reached: %s" % [e for e in j if e["ev"] == "await_failed"][:1])
+                continue
         odd_session = len(inj) == 1 and inj[0][1] not in ("get", "set", "result", "error")
         if (out["stalled"] >= 0 or not any(e["ev"] == "fence_done" for e in j)) and not odd_session:
             fails = [e for e in j if e["ev"] == "await_failed"]
@@ -195,6 +211,11 @@ def main(tier, replay=None):
         r.shuffle(ep)
         for k in range(0, len(ep), 60):
             sessions.append((cname, managers, bare, [x for pair in ep[k:k + 60] for x in pair]))
+        # answered on a session that is lost and resumed afterwards (replies unacknowledged at the loss, covered by <resumed h/>)
+        if not bare:
+            rs = [c_ for c_ in combos if c_[0] in ("get", "set")]
+            r.shuffle(rs)
+            sessions.append((cname, managers, bare, [("res-%s-%d" % (cname, i), typ, frm, p) for i, (typ, frm, p) in enumerate(rs[:60])], "resume"))
         # id collisions: two clients of this library number their requests alike (qxmpp1, qxmpp2, ...), so a peer's request can carry
         # the id of a request of ours that is still outstanding - to that very peer, to the server, or to someone else
         if not bare:
@@ -229,8 +250,8 @@ def main(tier, replay=None):
         stats.update(st)
     cov = {"evaluations": stats["injected"], "distinct_nontrivial": stats["answered_once"] + stats["responses_silent"],
            "rule": "IQs injected by a fake server into a real, connected QXmppClient: type {get,set,result,error,absent,garbage,empty} x payload (first child of each of the %d distinct IQ payload kinds of the fixtures, unknown, none, several) "
-                   "x sender (%s) x extension set {none, defaults, all bundled managers}, unique ids, plus an id duplicating an outstanding request, an absent id, id collisions (a request of the client's own with the same id is outstanding - to that peer, to the server, to the own account or to someone else - when the request arrives; the own request must not be completed by it), and echo pairs (every payload kind as a request directly followed by a result / an error with the same sender and id: one reply for the pair); replies counted on the server transcript after an XEP-0198 fence, "
+                   "x sender (%s) x extension set {none, defaults, all bundled managers}, unique ids, plus an id duplicating an outstanding request, an absent id, id collisions (a request of the client's own with the same id is outstanding - to that peer, to the server, to the own account or to someone else - when the request arrives; the own request must not be completed by it), sessions that are lost and resumed after the requests were answered (replies unacknowledged at the loss, covered by the <resumed h/>: none may come again), and echo pairs (every payload kind as a request directly followed by a result / an error with the same sender and id: one reply for the pair); replies counted on the server transcript after an XEP-0198 fence, "
                    "an idle settle and a second fence; distinct_nontrivial = requests answered exactly once + responses left unanswered" % (len(payloads), "6 senders" if tier != "quick" else "4 senders"),
            "observed": dict(stats), "payload_kinds": len(payloads), "sessions": len(sessions), "samples": [{"iq": "<iq id='inj-0-0' type='get' from='bob@example.org/phone'>%s</iq>" % payloads[3][1][:200]}]}
-    floors = {"id_collisions": stats["id_collisions"] > 100, "requests": stats["requests"] > 100, "responses": stats["responses"] > 100, "answered_once": stats["answered_once"] > 0, "echo_pairs": stats["echo_pairs"] > 100}
+    floors = {"resumed_sessions": stats["resumed_sessions"] >= 2, "id_collisions": stats["id_collisions"] > 100, "requests": stats["requests"] > 100, "responses": stats["responses"] > 100, "answered_once": stats["answered_once"] > 0, "echo_pairs": stats["echo_pairs"] > 100}
     V.finish(cov, "exploration", ["counting happens on the fake server's transcript of a loopback TCP connection", "a reply produced later than the settle window (30 ms of silence after an XEP-0198 fence) would be missed"], floors)
